@@ -21,10 +21,10 @@ const prop = "C07"
 
 func alphabet() []string {
 	return []string{
-		"regnode n2", "regnode n2 allow", "regnode n2 deny", "regnode n2 bogus", "regnode n2 empty",
+		"regnode n2", "regnode n2 allow", "regnode n2 deny", "regnode n2 bogus", "regnode n2 empty", "regnode n2 bogus+allow", "regnodesame n2 deny", "regnodesame n2",
 		"regnode n3", "regnode n3 deny", "regnode n4",
 		"rmnode n2", "rmnode n3",
-		"regpipe t1 p1 n2,n3", "regpipe t1 p1 n2,n3 allow", "regpipe t1 p1 n2,n3 deny", "regpipe t1 p1 n2,n3 bogus", "regpipe t1 p1 n2,n3 empty",
+		"regpipe t1 p1 n2,n3", "regpipe t1 p1 n2,n3 allow", "regpipe t1 p1 n2,n3 deny", "regpipe t1 p1 n2,n3 bogus", "regpipe t1 p1 n2,n3 empty", "regpipe t1 p1 n2,n3 bogus+deny",
 		"regpipe t1 p1 n2,n4", "regpipe t1 p1 n2,n4 deny",
 		"regpipe t2 p1 n2,n3", "regpipe t2 p1 n2,n3 deny",
 		"regpipe t1 p2 n2,n4", // a sibling pipeline of the same event type: the policy of p1 is p1's, whatever else is registered
